@@ -65,28 +65,33 @@ class _TabulationCutoff(object):
     dr = _get_or_none(self._dr_attr, cp_tabulation_section, float)
     cutoff = _get_or_none(self._cutoff_attr, cp_tabulation_section, float)
 
-    if nr and dr and cutoff:
+    # Values that were given must be usable as they stand: a zero is not the same as leaving the option out
+    # and 'nan'/'inf' (accepted by float()) do not describe a grid.
+    if not nr is None and nr <= 0:
+      raise ConfigParserException("'{nr}' in [Tabulation] section of potential definition cannot be 0 (zero) or negative.".format(**self._template_dict))
+    if not dr is None and not (0 < dr < float("inf")):
+      raise ConfigParserException("'{dr}' in [Tabulation] section of potential definition must be a finite number and cannot be 0 (zero) or negative.".format(**self._template_dict))
+    if not cutoff is None and not (0 < cutoff < float("inf")):
+      raise ConfigParserException("'{cutoff}' in [Tabulation] section of potential definition must be a finite number and cannot be 0 (zero) or negative.".format(**self._template_dict))
+
+    if not nr is None and not dr is None and not cutoff is None:
       raise ConfigParserException("'{cutoff}', '{nr}' and '{dr}' cannot all be spcified in [Tabulation] section of potential definition.".format(**self._template_dict))
-    elif nr and dr:
+    elif not nr is None and not dr is None:
       # Set cutoff
       cutoff = (nr-1)*dr      
-    elif cutoff and dr:
+    elif not cutoff is None and not dr is None:
       # Set nr
       # cutoff is normally a whole multiple of dr, guard against cutoff/dr falling just below
       # the whole number through floating point division (e.g. 0.3/0.1 = 2.9999999999999996).
       n_steps = cutoff/dr
+      if n_steps >= 1e15:
+        raise ConfigParserException("'{dr}' is too small for '{cutoff}' in [Tabulation] section of potential definition.".format(**self._template_dict))
       if abs(n_steps - round(n_steps)) <= 1e-9 * max(1.0, abs(n_steps)):
         n_steps = round(n_steps)
       nr = int(n_steps) + 1
     elif not dr is None:
       raise ConfigParserException("'{dr}' cannot be specified without either '{nr}' or '{cutoff}' in [Tabulation] section of potential definition.".format(**self._template_dict))
 
-    if not nr is None and nr <= 0:
-      raise ConfigParserException("'{nr}' in [Tabulation] section of potential definition cannot be 0 (zero) or negative.".format(**self._template_dict))
-    if not dr is None and dr <= 0:
-      raise ConfigParserException("'{dr}' in [Tabulation] section of potential definition cannot be 0 (zero) or negative.".format(**self._template_dict))
-    if not cutoff is None and cutoff <= 0:
-      raise ConfigParserException("'{cutoff}' in [Tabulation] section of potential definition cannot be 0 (zero) or negative.".format(**self._template_dict))
     return nr, cutoff
 
 class _TabulationSection(object):
